@@ -57,7 +57,7 @@ WORKERS = {"quick": 16, "thorough": 16}
 REQUIRE = dict({"checked_" + t: 20 for t in R.MESSAGE_TYPES},
                **{"subsets_enumerated": 1925, "status_values_swept": 65536, "with_dataset": 2000,
                   "multi_valued_at": 500, "multi_fragment_command": 200, "max_len_uid": 200, "max_len_ae": 50,
-                  "roundtrips_completed": 20000, "dataset_stream_not_at_start": 1000,
+                  "roundtrips_completed": 20000, "dataset_stream_not_at_start": 1000, "file_backed_store_requests": 25, "file_backed_exact_multiple_of_max_length": 2,
                   "forwarded_hops": 20000})
 EXHAUSTIVE = {"quick": False, "thorough": False}
 
@@ -219,6 +219,16 @@ def make_spec(t, mask, prof, rng):
         mx = rng.choice([0, 16382, 65536, 128, 30, 16] + ([8, 7] if dlen < 300 else []))
         cx = rng.randrange(1, 256, 2)
     spec = {"t": t, "p": params, "ds": ds, "mx": mx, "cx": cx}
+    if ds and t == "C-STORE-RQ" and (vprof == 2 or (vprof == 3 and rng.random() < 0.3)):
+        # file-backed data set (what send_c_store(path) builds with _config.STORE_SEND_CHUNKED_DATASET): fragment sizes chosen so that the
+        # data-set length is an exact multiple of the maximum length, of the fragment payload, or neither
+        spec["backing"] = "file"
+        k = rng.choice([1, 2, 3, 4])
+        how = rng.choice(["pdu-multiple", "pdu-multiple", "payload-multiple", "as-is"])
+        if how == "pdu-multiple" and dlen % k == 0 and dlen // k >= 8:
+            spec["mx"] = dlen // k
+        elif how == "payload-multiple" and dlen % k == 0 and dlen // k >= 2:
+            spec["mx"] = dlen // k + 6
     if ds:
         # where the data-set stream's position is when the primitive is handed over: a fresh BytesIO(bytes), one that
         # was filled with write() (position at the end, as decode_msg leaves it), or one that was partly read
@@ -383,6 +393,62 @@ def _kind(before, after):
     return "value"
 
 
+def _check_file_backed(p, spec, ds_bytes, counters, add, bump):
+    """C-STORE-RQ whose data set lives in a file (primitive._dataset_path = (path, offset), DataSet None): the fragments on the wire must
+    carry exactly the file's data-set bytes and the command set must announce them."""
+    import os
+    import tempfile
+    from pathlib import Path
+    M = _PN["M"]
+    t = spec["t"]
+    viol = []
+    try:
+        for kw, v in spec["p"].items():
+            setattr(p, kw, v)
+    except (ValueError, TypeError):
+        bump("rejected_by_setters")
+        return viol
+    offset = 132 + (len(ds_bytes) % 7) * 2
+    fd, path = tempfile.mkstemp(prefix="c17_", suffix=".dcm")
+    try:
+        with os.fdopen(fd, "wb") as f:
+            f.write(b"\0" * offset + ds_bytes)
+        p._dataset_path = (Path(path), offset)
+        m = M.C_STORE_RQ()
+        m.primitive_to_message(p)
+        pdvs = []
+        for pd in m.encode_msg(spec["cx"], spec["mx"]):
+            for cx, data in pd.presentation_data_value_list:
+                pdvs.append((cx, data[0], bytes(data[1:])))
+    except Exception as exc:
+        add("file-backed|raises|%s" % type(exc).__name__, "%r for mx=%r, %d data-set bytes" % (exc, spec["mx"], len(ds_bytes)))
+        return viol
+    finally:
+        try:
+            os.unlink(path)
+        except OSError:
+            pass
+    bump("file_backed_store_requests")
+    msgs = R.reassemble(pdvs)
+    if len(msgs) != 1 or msgs.problems:
+        add("file-backed|wire|%s" % ((msgs.kinds() or ["message-count"])[0]), "%d messages, problems %r (mx=%r, %d data-set bytes)" % (
+            len(msgs), msgs.problems[:3], spec["mx"], len(ds_bytes)))
+        return viol
+    w = msgs[0]
+    got = R.parse_command_set(w["command_set_bytes"], [])
+    if got.get("CommandDataSetType") == R.NO_DATA_SET:
+        add("file-backed|cdst|dataset-without-flag", "CommandDataSetType 0x0101 for a file-backed data set of %d bytes" % len(ds_bytes))
+    if w["data_set_bytes"] != ds_bytes:
+        a = w["data_set_bytes"] or b""
+        add("file-backed|dataset-bytes", "file holds %d data-set bytes, %d arrive on the wire (maximum length %r: %s)" % (
+            len(ds_bytes), len(a), spec["mx"],
+            "exact multiple of the maximum length" if spec["mx"] and len(ds_bytes) % spec["mx"] == 0 else
+            "exact multiple of the fragment payload" if spec["mx"] and len(ds_bytes) % (spec["mx"] - 6) == 0 else "no multiple"))
+    if spec["mx"] and len(ds_bytes) % spec["mx"] == 0:
+        bump("file_backed_exact_multiple_of_max_length")
+    return viol
+
+
 # ----------------------------------------------------------------------------- the monitor
 
 def check_one(spec, counters):
@@ -407,6 +473,11 @@ def check_one(spec, counters):
 
     # ---- build through the real setters
     p = _prim_class(t)()
+    if spec.get("backing") == "file" and ds_bytes:
+        _check_file_backed(p, spec, ds_bytes, counters, add, bump)      # reports through add()
+        info["nontrivial"] = True
+        info["hash"] = sha(("file|%d|%r" % (len(ds_bytes), spec["mx"])).encode() + ds_bytes[:64])[:10]
+        return viol, info
     try:
         for kw, v in spec["p"].items():
             setattr(p, kw, v)
